@@ -1,5 +1,5 @@
 /- L0 facts about SlowStochastic::reset (split from Lemmas/SlowStochastic.lean so that a change to one method only invalidates the facts about that method) -/
-import TaRs.Lemmas.SlowStochastic
+import TaRs.Lemmas.Core.SlowStochastic
 import TaRs.Lemmas.Reset.FastStochastic
 import TaRs.Lemmas.Reset.ExponentialMovingAverage
 set_option linter.unusedSectionVars false
